@@ -69,62 +69,15 @@ func c09(r *Report) {
 	})
 
 	r.Guard("C09.R2", "a frame is emitted only when it fits both windows, and both windows are then reduced by its flow-controlled size", func() {
-		sps := sendPoints(emit)
-		if len(sps) != 1 {
-			r.Undecided("(*M/h2.outputBuffer).emitEligibleFrames: send", fmt.Sprintf("UNRESOLVED: %d channel sends, want 1", len(sps)))
+		sps, okFit := windowFitRules(r, emit)
+		if !okFit {
 			return
 		}
 		send := sps[0].Instr
 		g := G(emit)
-		// the two window comparisons
 		isFCS := func(v ssa.Value) bool {
 			c, ok := v.(*ssa.Call)
 			return ok && c.Call.IsInvoke() && c.Call.Method.Name() == "flowControlSize"
-		}
-		isConnWin := func(v ssa.Value) bool {
-			ld, ok := v.(*ssa.UnOp)
-			return ok && ld.Op == token.MUL && ld.X == ssa.Value(emit.Params[2])
-		}
-		isStreamWin := func(v ssa.Value) bool {
-			ld, ok := v.(*ssa.UnOp)
-			if !ok || ld.Op != token.MUL {
-				return false
-			}
-			fa, ok := ld.X.(*ssa.FieldAddr)
-			return ok && fa.X == ssa.Value(emit.Params[0]) && fieldObj(fa).Name() == "windowSize"
-		}
-		for _, cmp := range []struct {
-			name string
-			win  func(ssa.Value) bool
-		}{{"connection window", isConnWin}, {"stream window", isStreamWin}} {
-			ok := false
-			for _, in := range instrs(emit) {
-				b, isB := in.(*ssa.BinOp)
-				if !isB {
-					continue
-				}
-				var fits func(e condEdge) *ssa.BasicBlock
-				switch {
-				case b.Op == token.GTR && isFCS(b.X) && cmp.win(b.Y), b.Op == token.LSS && cmp.win(b.X) && isFCS(b.Y):
-					fits = func(e condEdge) *ssa.BasicBlock { return e.False }
-				case b.Op == token.LEQ && isFCS(b.X) && cmp.win(b.Y), b.Op == token.GEQ && cmp.win(b.X) && isFCS(b.Y):
-					fits = func(e condEdge) *ssa.BasicBlock { return e.True }
-				default:
-					continue
-				}
-				for _, e := range branchesOn(b) {
-					notFit := e.True
-					if fits(e) == e.True {
-						notFit = e.False
-					}
-					// the does-not-fit edge cannot reach the send in this iteration; the comparison is on every path to the send
-					if g.PathTo(blockStart(notFit), true, func(i ssa.Instruction) bool { return i == ssa.Instruction(b) }, func(i ssa.Instruction) bool { return i == send }) == nil && g.Before(b, send) {
-						ok = true
-					}
-				}
-			}
-			r.Paths++
-			r.Decide("path", "(*M/h2.outputBuffer).emitEligibleFrames: emission guarded by the "+cmp.name, ok, "the send is reached only when flowControlSize() fits", "a frame can be emitted without fitting the "+cmp.name+": the receiver is sent more than it granted", send.Pos())
 		}
 		// after the send both windows are reduced by flowControlSize()
 		for _, dec := range []struct {
@@ -433,7 +386,144 @@ func flowWakeRules(r *Report) {
 			}
 		}
 	}
+	// each setting is applied where the frame is walked, from the setting being visited: a frame may
+	// repeat an identifier and the last occurrence wins (RFC 7540 6.5.3: processed in order)
+	for _, f := range append([]*ssa.Function{pf}, pf.AnonFuncs...) {
+		for _, n := range []string{"(*M/h2.relay).updateInitialWindowSize", "(*M/h2.relay).updateMaxFrameSize", "(*M/h2.relay).updateTableSize"} {
+			for _, c := range plainCalls(f, n) {
+				inOrder := false
+				for _, leaf := range resolveAll(c.Call.Args[1]) {
+					var base ssa.Value
+					switch x := leaf.(type) {
+					case *ssa.Field:
+						if fieldObjV(x).Name() == "Val" {
+							base = x.X
+						}
+					case *ssa.UnOp:
+						if fa, isFa := x.X.(*ssa.FieldAddr); isFa && x.Op == token.MUL && fieldObj(fa).Name() == "Val" {
+							base = fa.X
+						}
+					}
+					if base == nil {
+						continue
+					}
+					// the Setting visited: parameter of the ForeachSetting callback, or f.Setting(i)
+					for _, b := range resolveAll(base) {
+						if a, isA := b.(*ssa.Alloc); isA {
+							for _, st := range storesTo(a) {
+								b = st.Val
+							}
+						}
+						if ld, isLd := b.(*ssa.UnOp); isLd && ld.Op == token.MUL {
+							if a, isA := ld.X.(*ssa.Alloc); isA {
+								for _, st := range storesTo(a) {
+									b = st.Val
+								}
+							}
+						}
+						if par, isPar := b.(*ssa.Parameter); isPar && par.Parent().Parent() == pf {
+							for _, fc := range plainCalls(pf, "(*"+pHTTP2+".SettingsFrame).ForeachSetting") {
+								if mc, isMC := fc.Call.Args[1].(*ssa.MakeClosure); isMC && mc.Fn == ssa.Value(par.Parent()) {
+									inOrder = true
+								}
+								if fn, isFn := fc.Call.Args[1].(*ssa.Function); isFn && fn == par.Parent() {
+									inOrder = true
+								}
+							}
+						}
+						if isCallValue(b, "(*"+pHTTP2+".SettingsFrame).Setting") && inLoop(c.Block()) {
+							inOrder = true
+						}
+					}
+				}
+				r.Decide("flow", "(*M/h2.relay).processFrame: "+site(f, c)+" takes the value of the setting being visited", inOrder, "the argument is the Val of the Setting handed to the ForeachSetting callback (settings applied in frame order, last occurrence wins)", "the value does not come from walking the frame's settings in order (e.g. SettingsFrame.Value returns the first occurrence): a frame that repeats an identifier leaves the relay with the earlier value, and it then sends more than the receiver allows", c.Pos())
+			}
+		}
+	}
 	r.Decide("flow", "(*M/h2.relay).processFrame: WINDOW_UPDATE and window/frame-size/table-size settings are applied to the peer relay", okS == 4, "four updates routed to r.peer", fmt.Sprintf("%d of 4 updates reach the peer relay", okS), pf.Pos())
+}
+
+// windowFitRules: the two comparisons that gate an emission (shared by C09.R2
+// and C08.R8): the send is reached only when the frame fits the connection and
+// the stream window, and a frame that exactly fills a window does fit.
+func windowFitRules(r *Report, emit *ssa.Function) ([]sendPoint, bool) {
+	sps := sendPoints(emit)
+	if len(sps) != 1 {
+		r.Undecided("(*M/h2.outputBuffer).emitEligibleFrames: send", fmt.Sprintf("UNRESOLVED: %d channel sends, want 1", len(sps)))
+		return nil, false
+	}
+	send := sps[0].Instr
+	g := G(emit)
+	// the two window comparisons
+	isFCS := func(v ssa.Value) bool {
+		c, ok := v.(*ssa.Call)
+		return ok && c.Call.IsInvoke() && c.Call.Method.Name() == "flowControlSize"
+	}
+	isConnWin := func(v ssa.Value) bool {
+		ld, ok := v.(*ssa.UnOp)
+		return ok && ld.Op == token.MUL && ld.X == ssa.Value(emit.Params[2])
+	}
+	isStreamWin := func(v ssa.Value) bool {
+		ld, ok := v.(*ssa.UnOp)
+		if !ok || ld.Op != token.MUL {
+			return false
+		}
+		fa, ok := ld.X.(*ssa.FieldAddr)
+		return ok && fa.X == ssa.Value(emit.Params[0]) && fieldObj(fa).Name() == "windowSize"
+	}
+	for _, cmp := range []struct {
+		name string
+		win  func(ssa.Value) bool
+	}{{"connection window", isConnWin}, {"stream window", isStreamWin}} {
+		ok := false
+		strict := false
+		for _, in := range instrs(emit) {
+			b, isB := in.(*ssa.BinOp)
+			if !isB {
+				continue
+			}
+			// normalise to "size OP window"
+			op := b.Op
+			switch {
+			case isFCS(b.X) && cmp.win(b.Y):
+			case cmp.win(b.X) && isFCS(b.Y):
+				op = map[token.Token]token.Token{token.LSS: token.GTR, token.GTR: token.LSS, token.LEQ: token.GEQ, token.GEQ: token.LEQ}[b.Op]
+			default:
+				continue
+			}
+			var fits func(e condEdge) *ssa.BasicBlock
+			switch op {
+			case token.GTR: // size > window: does not fit
+				fits = func(e condEdge) *ssa.BasicBlock { return e.False }
+			case token.LEQ: // size <= window: fits
+				fits = func(e condEdge) *ssa.BasicBlock { return e.True }
+			case token.GEQ: // size >= window: a frame that exactly fills the window is held back
+				fits = func(e condEdge) *ssa.BasicBlock { return e.False }
+				strict = true
+			case token.LSS:
+				fits = func(e condEdge) *ssa.BasicBlock { return e.True }
+				strict = true
+			default:
+				continue
+			}
+			for _, e := range branchesOn(b) {
+				notFit := e.True
+				if fits(e) == e.True {
+					notFit = e.False
+				}
+				// the does-not-fit edge cannot reach the send in this iteration; the comparison is on every path to the send
+				if g.PathTo(blockStart(notFit), true, func(i ssa.Instruction) bool { return i == ssa.Instruction(b) }, func(i ssa.Instruction) bool { return i == send }) == nil && g.Before(b, send) {
+					ok = true
+				}
+			}
+		}
+		r.Paths++
+		r.Decide("path", "(*M/h2.outputBuffer).emitEligibleFrames: emission guarded by the "+cmp.name, ok, "the send is reached only when flowControlSize() fits", "a frame can be emitted without fitting the "+cmp.name+": the receiver is sent more than it granted", send.Pos())
+		if ok {
+			r.Decide("path", "(*M/h2.outputBuffer).emitEligibleFrames: a frame that exactly fills the "+cmp.name+" is emitted", !strict, "the comparison admits size == window", "the comparison with the "+cmp.name+" excludes size == window: a DATA frame that uses up the remaining credit (and everything queued behind it) is withheld although the receiver granted enough", send.Pos())
+		}
+	}
+	return sps, true
 }
 
 // frameSizeRules: payloads are bounded by the receiver's maximum frame size
